@@ -91,7 +91,7 @@ def main():
         mp = os.path.join(out, "meta.json")
         if os.path.exists(mp):
             old = json.load(open(mp))
-        for k in ("what", "needs"):
+        for k in ("what", "needs", "history"):
             if k in old:
                 meta[k] = old[k]
         json.dump(meta, open(mp, "w"), indent=1)
